@@ -32,6 +32,8 @@ pub fn config_for(case: &Case) -> rt::Config {
     schedule: case.schedule.clone().unwrap_or_default(),
     budget: case.budget,
     stack_size: 256 * 1024,
+    prefer: case.prefer.clone(),
+    trace: case.atomics,
   }
 }
 
@@ -59,7 +61,15 @@ pub fn render(case: &Case, res: &exec::RunResult) -> String {
     out.push('\n');
   }
   let mut panic: Option<(usize, String)> = None;
-  for e in &res.events {
+  let mut tpos = 0usize;
+  let trace = &res.outcome.trace;
+  for (k, e) in res.events.iter().enumerate() {
+    let upto = res.apos.get(k).copied().unwrap_or(0).min(trace.len());
+    while tpos < upto {
+      out.push_str(&trace[tpos]);
+      out.push('\n');
+      tpos += 1;
+    }
     match e {
       exec::Ev::Call { tid, op } => out.push_str(&format!("C {} {}\n", tid, op.text())),
       exec::Ev::Ret { tid, res, .. } => out.push_str(&format!("R {} {}\n", tid, res)),
@@ -69,6 +79,11 @@ pub fn render(case: &Case, res: &exec::RunResult) -> String {
         }
       }
     }
+  }
+  while tpos < trace.len() {
+    out.push_str(&trace[tpos]);
+    out.push('\n');
+    tpos += 1;
   }
   let status = if let Some(inv) = &res.invalid {
     format!("invalid:{}", inv)
@@ -126,9 +141,12 @@ fn main() {
         eprintln!("chanh: {}: {}", path, e);
         std::process::exit(2)
       });
+      let atomics = args.iter().any(|a| a == "--atomics");
       let mut lock = stdout.lock();
       for c in &cases {
-        let _ = lock.write_all(run_and_render(c).as_bytes());
+        let mut c = c.clone();
+        c.atomics |= atomics;
+        let _ = lock.write_all(run_and_render(&c).as_bytes());
       }
     }
     "gen" | "worker" => gen::main(&args[1..]),
